@@ -132,7 +132,7 @@ theorem fitting_rank (w : Nat) (h : w ≤ 32) : (fitting w).rank ≤ 2 := by
 theorem pack_ref (all : Items) (pl : Nat) (v : Value) :
     ∀ (fs : List BitField) (off acc X : Nat), fs.all bfOkJ = true → off + chunkBits fs ≤ 32 →
       Pdlv.encChunkFields true all pl v fs off acc = .ok X →
-      ∃ es, packFields v fs off = .ok es ∧ Stacked es off (off + chunkBits fs) ∧ X = acc + sumVals es ∧
+      ∃ es, packFields all pl v fs off = .ok es ∧ Stacked es off (off + chunkBits fs) ∧ X = acc + sumVals es ∧
         ∀ e ∈ es, e.ty.rank ≤ 2
   | [], off, acc, X, _, _, h => by
     simp only [Pdlv.encChunkFields, Outcome.ok.injEq] at h
@@ -142,10 +142,10 @@ theorem pack_ref (all : Items) (pl : Nat) (v : Value) :
     rw [width_sum] at h32
     have ih := fun a X' => pack_ref all pl v fs (off + f.width) a X' hw.2 (by omega)
     unfold Pdlv.encChunkFields at h
-    have fin : ∀ (e : E) (x : Nat), toNum v f = .ok e → x < 2 ^ f.width → e.val = x → e.val < 2 ^ e.ty.bits →
+    have fin : ∀ (e : E) (x : Nat), toNum all pl v f = .ok e → x < 2 ^ f.width → e.val = x → e.val < 2 ^ e.ty.bits →
         e.ty.rank ≤ 2 → (e.lit = some 0 → x = 0) → 0 < f.width →
         Pdlv.encChunkFields true all pl v fs (off + f.width) (acc + x * 2 ^ off) = .ok X →
-        ∃ es, packFields v (f :: fs) off = .ok es ∧ Stacked es off (off + chunkBits (f :: fs)) ∧ X = acc + sumVals es ∧
+        ∃ es, packFields all pl v (f :: fs) off = .ok es ∧ Stacked es off (off + chunkBits (f :: fs)) ∧ X = acc + sumVals es ∧
           ∀ e ∈ es, e.ty.rank ≤ 2 := by
       intro e x hte hx hv hfit hrk hlit hpos hrest
       obtain ⟨es, h1, h2, h3, h4⟩ := ih _ X hrest
@@ -178,7 +178,7 @@ theorem pack_ref (all : Items) (pl : Nat) (v : Value) :
               have : backingOf w = w := by omega
               rw [this] at hb; omega
           have hw32 : w ≤ 32 := by simp only [BitField.width] at h32; omega
-          have hte : toNum v (.scalar id w) = .ok (sym (if w = 1 then .int else fitting w) x) := by
+          have hte : toNum all pl v (.scalar id w) = .ok (sym (if w = 1 then .int else fitting w) x) := by
             simp only [toNum, hx, Outcome.bind]
             rw [if_neg (by omega)]
           refine fin _ x hte (by simpa [BitField.width] using hlt) ?_ ?_ ?_ (by simp [sym]) (by simpa [BitField.width] using hw.1.1)
@@ -201,7 +201,7 @@ theorem pack_ref (all : Items) (pl : Nat) (v : Value) :
       · rename_i hok
         have hlt := Py.enumOk_lt e x hok
         have hw32 : e.width ≤ 32 := by simp only [BitField.width] at h32; omega
-        have hte : toNum v (.enumTy id ty e) = .ok (sym (fitting e.width) x) := by
+        have hte : toNum all pl v (.enumTy id ty e) = .ok (sym (fitting e.width) x) := by
           simp only [toNum, hx, Outcome.bind]
           rw [if_neg (by omega)]
         refine fin _ x hte (by simpa [BitField.width] using hlt) ?_ ?_ ?_ (by simp [sym]) (by simpa [BitField.width] using hw.1.1)
@@ -213,7 +213,7 @@ theorem pack_ref (all : Items) (pl : Nat) (v : Value) :
       · cases h2
     | fixed w c =>
       simp only [bfOkJ, Bool.and_eq_true, decide_eq_true_eq] at hw
-      have hte : toNum v (.fixed w c) = .ok (num c) := by simp [toNum, hw.1.2]
+      have hte : toNum all pl v (.fixed w c) = .ok (num c) := by simp [toNum, hw.1.2]
       have hc32 : c < 2 ^ 32 := by have := hw.1.2; omega
       refine fin _ c hte (by simpa [BitField.width] using hw.1.1.2) ?_ ?_ (by simp [num, JT.rank]) ?_
         (by simpa [BitField.width] using hw.1.1.1) (by simpa [BitField.width] using h)
@@ -222,7 +222,7 @@ theorem pack_ref (all : Items) (pl : Nat) (v : Value) :
       · intro hl; simp only [num, Option.some.injEq] at hl; exact hl
     | reserved w =>
       simp only [bfOkJ, decide_eq_true_eq] at hw
-      have hte : toNum v (.reserved w) = .ok (num 0) := by simp [toNum]
+      have hte : toNum all pl v (.reserved w) = .ok (num 0) := by simp [toNum]
       refine fin _ 0 hte (Nat.two_pow_pos _) (by simp [num]) (by simp [num, JT.bits]) (by simp [num, JT.rank]) (fun _ => rfl)
         (by simpa [BitField.width] using hw.1) (by simpa [BitField.width] using h)
     | flag id o => simp [bfOkJ] at hw
@@ -233,7 +233,7 @@ theorem pack_ref (all : Items) (pl : Nat) (v : Value) :
 /-- a whole group -/
 theorem chunk_ref (en : Endian) (all : Items) (pl : Nat) (v : Value) (fs : List BitField) (hw : chunkWf fs = true)
     (X : Nat) (h : Pdlv.encChunkFields true all pl v fs 0 0 = .ok X) :
-    encChunk en v fs = .ok (putUint en (chunkBits fs) X) := by
+    encChunk en all pl v fs = .ok (putUint en (chunkBits fs) X) := by
   simp only [chunkWf, Bool.and_eq_true, decide_eq_true_eq] at hw
   obtain ⟨es, h1, h2, h3, h4⟩ := pack_ref all pl v fs 0 0 X hw.1 (by omega) h
   have hnot : ¬ chunkBits fs > 64 := by omega
@@ -337,8 +337,8 @@ def SameFields {α β : Type} (R : α → β → Prop) (p : Dec α) (q : Dec β)
 
 theorem fields_same (W chunk : Nat) (hW : W = 8 ∨ W = 16 ∨ W = 32) (hc : chunk < 2 ^ W) :
     ∀ (fs : List BitField) (off : Nat) (sj sr : DState), fs.all bfOkJ = true → off + chunkBits fs ≤ W →
-      sj.fields = sr.fields →
-      SameFields (fun a b => a.fields = b.fields) (decFields (fitting W) chunk fs off sj)
+      (sj.fields = sr.fields ∧ sj.payload = sr.payload) →
+      SameFields (fun a b => a.fields = b.fields ∧ a.payload = b.payload) (decFields (fitting W) chunk fs off sj)
         (Pdlv.decChunkFields true fs off chunk sr)
   | [], off, sj, sr, _, _, hf => by
     simp only [decFields, Pdlv.decChunkFields]
@@ -353,14 +353,14 @@ theorem fields_same (W chunk : Nat) (hW : W = 8 ∨ W = 16 ∨ W = 32) (hc : chu
       simp only [bfOkJ, Bool.and_eq_true, decide_eq_true_eq] at hw
       simp only [BitField.width] at hfit ih ⊢
       simp only [mask_exact W chunk off w hW hc hw.1.1 (by omega)]
-      exact ih _ _ (by simp [hf])
+      exact ih _ _ (by simp [hf.1, hf.2])
     | enumTy id ty e =>
       simp only [bfOkJ, Bool.and_eq_true, decide_eq_true_eq] at hw
       simp only [BitField.width] at hfit ih ⊢
       simp only [mask_exact W chunk off e.width hW hc hw.1.1 (by omega)]
       by_cases hok : enumOk e (chunk / 2 ^ off % 2 ^ e.width) = true
       · simp only [hok, ↓reduceIte]
-        exact ih _ _ (by simp [hf])
+        exact ih _ _ (by simp [hf.1, hf.2])
       · simp only [hok, Bool.false_eq_true, ↓reduceIte]
         exact ⟨fun a h => (by cases h), fun b h => (by cases h)⟩
     | fixed w c =>
@@ -387,11 +387,7 @@ namespace Pdlv
 namespace Java
 
 
-def RelSt (a b : DState) : Prop := a.fields = b.fields ∧ b.payload = none
-
-theorem fields_payload (fs : List BitField) : ∀ (off chunk : Nat) (st st' : DState),
-    Pdlv.decChunkFields true fs off chunk st = .ok st' → st'.payload = st.payload :=
-  fun off chunk st st' h => (decChunkFields_mono true fs off chunk st st' h).2.1
+def RelSt (a b : DState) : Prop := a.fields = b.fields ∧ a.payload = b.payload
 
 theorem chunk_same_aux (fs : List BitField) (hw : fs.all bfOkJ = true)
     (hW : chunkBits fs = 8 ∨ chunkBits fs = 16 ∨ chunkBits fs = 32) (ch : Nat) (hc : ch < 2 ^ chunkBits fs) (rest : Bytes)
@@ -399,7 +395,7 @@ theorem chunk_same_aux (fs : List BitField) (hw : fs.all bfOkJ = true)
     SameFields (fun a b => RelSt a.1 b.1 ∧ a.2 = b.2)
       ((decFields (fitting (chunkBits fs)) ch fs 0 sj).bind fun st' => (.ok (st', rest) : Dec (DState × Bytes)))
       ((Pdlv.decChunkFields true fs 0 ch sr).bind fun st' => (.ok (st', rest) : Dec (DState × Bytes))) := by
-  have hsame := fields_same (chunkBits fs) ch hW hc fs 0 sj sr hw (by omega) hr.1
+  have hsame := fields_same (chunkBits fs) ch hW hc fs 0 sj sr hw (by omega) hr
   constructor
   · intro a ha
     obtain ⟨sa, h1, h2⟩ := bind_ok _ _ _ ha
@@ -407,14 +403,14 @@ theorem chunk_same_aux (fs : List BitField) (hw : fs.all bfOkJ = true)
     refine ⟨(sb, rest), by rw [h3]; rfl, ?_⟩
     simp only [Outcome.ok.injEq] at h2
     subst h2
-    exact ⟨⟨h4, by rw [fields_payload fs 0 _ sr sb h3]; exact hr.2⟩, rfl⟩
+    exact ⟨h4, rfl⟩
   · intro b hb
     obtain ⟨sb, h1, h2⟩ := bind_ok _ _ _ hb
     obtain ⟨sa, h3, h4⟩ := hsame.2 sb h1
     refine ⟨(sa, rest), by rw [h3]; rfl, ?_⟩
     simp only [Outcome.ok.injEq] at h2
     subst h2
-    exact ⟨⟨h4, by rw [fields_payload fs 0 _ sr sb h1]; exact hr.2⟩, rfl⟩
+    exact ⟨h4, rfl⟩
 
 theorem chunk_same (en : Endian) (fs : List BitField) (hw : chunkWf fs = true)
     (hW : chunkBits fs = 8 ∨ chunkBits fs = 16 ∨ chunkBits fs = 32) (bs : Bytes) (sj sr : DState) (hr : RelSt sj sr) :
@@ -477,6 +473,11 @@ theorem decode_same (c : Cfg) (nm : String) (items : Items) (hw : decWfItems ite
     Java.decodeFull c (.root nm items) bs = .ok v ↔
       Pdlv.decodeFull { e := c.e, mode := .ideal } (.root nm items) bs = .ok v := by
   have hs := items_same c.e items hw bs DState.empty DState.empty ⟨rfl, rfl⟩
+  have hval : ∀ (sa sb : DState), RelSt sa sb →
+      Value.obj (sa.fields ++ (match sa.payload with | some p => [("payload", Value.ofBytes p)] | none => [])) =
+      Value.obj (sb.fields ++ (match sb.payload with | some p => [("payload", Value.ofBytes p)] | none => [])) := by
+    intro sa sb hr
+    rw [hr.1, hr.2]
   simp only [Java.decodeFull, Pdlv.decodeFull, Pdlv.decBody]
   constructor
   · intro h
@@ -484,11 +485,14 @@ theorem decode_same (c : Cfg) (nm : String) (items : Items) (hw : decWfItems ite
     obtain ⟨⟨sb, rb⟩, h3, h4, h5⟩ := hs.1 _ h1
     simp only at h4 h5 h2
     subst h5
-    split at h2
-    · rename_i hre
-      simp only [Outcome.ok.injEq] at h2
-      simp only [h3, Outcome.bind, h4.2, hre, ↓reduceIte, List.append_nil, ← h4.1, h2]
-    · cases h2
+    by_cases hre : ra.isEmpty = true
+    · simp only [hre, ↓reduceIte, Outcome.ok.injEq] at h2
+      simp only [h3, Outcome.bind, hre, ↓reduceIte, Outcome.ok.injEq]
+      rw [← h2]
+      have := hval sa sb h4
+      cases hp : sb.payload <;> cases hq : sa.payload <;> simp_all
+    · simp only [hre, Bool.false_eq_true, ↓reduceIte] at h2
+      cases h2
   · intro h
     obtain ⟨⟨v1, r1⟩, h1, h2⟩ := bind_ok _ _ _ h
     obtain ⟨⟨sb, rb⟩, h3, h4⟩ := bind_ok _ _ _ h1
@@ -496,12 +500,15 @@ theorem decode_same (c : Cfg) (nm : String) (items : Items) (hw : decWfItems ite
     simp only at h6 h7 h2 h4
     simp only [Outcome.ok.injEq, Prod.mk.injEq] at h4
     subst h7
-    split at h2
-    · rename_i hre
-      simp only [Outcome.ok.injEq] at h2
+    by_cases hre : r1.isEmpty = true
+    · simp only [hre, ↓reduceIte, Outcome.ok.injEq] at h2
       have hre' : ra.isEmpty = true := by rw [← h4.2] at hre; exact hre
-      simp only [h5, Outcome.bind, hre', ↓reduceIte, h6.1, ← h2, ← h4.1, h6.2, List.append_nil]
-    · cases h2
+      simp only [h5, Outcome.bind, hre', ↓reduceIte, Outcome.ok.injEq]
+      rw [← h2, ← h4.1]
+      have := hval sa sb h6
+      cases hp : sb.payload <;> cases hq : sa.payload <;> simp_all
+    · simp only [hre, Bool.false_eq_true, ↓reduceIte] at h2
+      cases h2
 
 end Java
 end Pdlv
